@@ -57,6 +57,9 @@ TESTS = [Test('machine', _run, machine=sm.c02_machine_factory,
          Test('initial', run_init, strategy=lambda tier: init_cases(tier),
               examples={'quick': 1600, 'thorough': 30000})]
 
+from vp.solver_machine import kf_gnt as sm_kf_gnt
+
+
 def _isnan(v):
     return v == 'nan' or (isinstance(v, float) and v != v)
 
@@ -69,7 +72,13 @@ def _kf_f18(case, subcheck, detail):
     x = detail.get('x') or []; box = detail.get('box') or [[], []]
     infinite = [i for i, (l, h) in enumerate(zip(box[0], box[1])) if l in ('-inf', float('-inf')) or h in ('inf', float('inf'))]
     nan_at = [i for i, v in enumerate(x) if _isnan(v)]
-    return bool(nan_at) and set(nan_at) <= set(infinite) and detail.get('solver') in ('DE', 'DE2') \
+    reach = set(infinite)       # a tie / sort constraint carries the NaN on to other coordinates
+    con = detail.get('constraint') or {}
+    if con.get('kind') == 'tie' and con.get('i') in reach:
+        reach.add(con.get('j'))
+    if con.get('kind') == 'sort' and reach:
+        reach = set(range(len(x)))
+    return bool(nan_at) and set(nan_at) <= reach and detail.get('solver') in ('DE', 'DE2') \
         and all(lab.in_box([v], [box[0][i]], [box[1][i]]) for i, v in enumerate(x) if i not in nan_at)
 
 
@@ -82,5 +91,6 @@ def _kf_f19(case, subcheck, detail):
     return con.get('kind') == 'push' or not lab.box_compatible(con, box[0], box[1])
 
 
-KNOWN = {'F18-infinite-side-midrun-nan': _kf_f18,
+KNOWN = {'F52-gradient-norm-tolerance-calls-raw-cost': sm_kf_gnt, 'F18-infinite-side-midrun-nan': _kf_f18,
          'F19-nm-best-vertex-pushed-without-evaluation': _kf_f19}
+from vp.solver_machine import kf_gnt as _kf_gnt_pred
